@@ -474,6 +474,8 @@ def balance_bookkeeping(prog, chk):
                 item = f.params[0]["n"]
                 defs = q.local_defs(f)
 
+                walked = [[]]
+
                 def select(node, val, pl):
                     node = f.strip(node)
                     n = f.nodes[node]
@@ -485,6 +487,13 @@ def balance_bookkeeping(prog, chk):
                         if n["k"] == "DeclRefExpr" and n["ref"].get("dk") == "local":
                             ini = q.single_def(f, n["ref"]["id"], defs)
                             # several rebal arms declare their own `cell`: take the declaration that reaches this use
+                            if ini is None:
+                                # the definition that was executed last on the evaluated path (a helper's result set on several branches)
+                                dnodes = {d_[1]: d_[2] for d_ in defs.get(n["ref"]["id"], []) if d_[2] is not None and d_[0] != "addr"}
+                                for e_ in reversed(walked[0]):
+                                    if e_ in dnodes:
+                                        ini = dnodes[e_]
+                                        break
                             if ini is None:
                                 cands = [d_[2] for d_ in defs.get(n["ref"]["id"], []) if d_[0] == "decl" and d_[2] is not None]
                                 ini = cands[0] if len(cands) == 1 else None
@@ -513,6 +522,7 @@ def balance_bookkeeping(prog, chk):
                         val = {item + "->slope": v, item + "->parent": p_}
                         asm = lambda k, pl=pl: (pl if re.search(r"->left == %s\b" % item, k) else ((not pl) if pl is not None and re.search(r"->right == %s\b" % item, k) else None))
                         seen, end, fv = fin.walk_vals(f, f.entry, val, assume=asm)
+                        walked[0] = seen
                         n_ev += 1
                         if isinstance(end, str):
                             bad = (v, "the decision is not made by the node's slope and parent (%s)" % end)
